@@ -9,12 +9,20 @@ from contracts import schema
 def main(argv):
     mods = argv[1:2]
     only = argv[2] if len(argv) > 2 else None
-    for m in mods:
-        importlib.import_module('contracts.' + m)
+    from vp.check import load_contracts
+    load_contracts()
+    modfile = {'util': 'gemato/util.py', 'profile': 'gemato/profile.py', 'manifest': 'gemato/manifest.py',
+               'verify': 'gemato/verify.py', 'hashing': 'gemato/hash.py', 'compression': 'gemato/compression.py',
+               'find_top_level': 'gemato/find_top_level.py', 'openpgp': 'gemato/openpgp.py',
+               'recursiveloader': 'gemato/recursiveloader.py', 'cli': 'gemato/cli.py'}.get(mods[0])
     repo = Repo()
     lib = Lib()
     for key, con in REGISTRY.items():
         if only and con.qualname != only:
+            continue
+        if not only and modfile and con.file != modfile:
+            continue
+        if con.trusted:
             continue
         t0 = time.time()
         res, eng = verify_function(repo, con, schema.FIELDS, lib)
